@@ -4,6 +4,7 @@ import (
 	"context"
 	"errors"
 	"fmt"
+	"sync"
 	"time"
 
 	jsonrpc "github.com/filecoin-project/go-jsonrpc"
@@ -64,6 +65,13 @@ func (c05) Plan(tier string, seed int64) []core.Scenario {
 	for i := 0; i < nr; i++ {
 		add(core.Sc("noreconnect").WithN("fk", i%len(faultKinds)).WithN("map", (i/3)%2).WithN("b", rng.Intn(3)))
 	}
+	nbr := 4
+	if tier == "thorough" {
+		nbr = 40
+	}
+	for i := 0; i < nbr; i++ {
+		add(core.Sc("busy-reconnect").WithN("workers", 4+i%5).WithN("rounds", 4).WithN("stallus", []int{0, 500, 3000}[i%3]).WithN("b", 0))
+	}
 	ni := 3
 	if tier == "thorough" {
 		ni = 12
@@ -81,6 +89,8 @@ func (p c05) Run(sc core.Scenario) core.Result {
 		p.outage(sc, r)
 	case "noreconnect":
 		p.noReconnect(sc, r)
+	case "busy-reconnect":
+		p.busyReconnect(sc, r)
 	}
 	return r.Result()
 }
@@ -265,6 +275,80 @@ func (c05) outage(sc core.Scenario, r *core.R) {
 	}
 	r.Sig(core.Log.Signature())
 	r.Sample(map[string]interface{}{"fault": kind, "refused_redials": k, "backoff": fmt.Sprint(bo), "mapping": mapping, "second_fault": sc.I("second"), "redial_attempts": dials, "min_gap": time.Duration(minGap).String(), "outage": outage.String()})
+}
+
+// busyReconnect: several goroutines keep calling while the link is lost and re-established a few times;
+// the moment just before the new connection is installed is stretched by a hook delay. After the last
+// heal every call must have returned, and new calls must succeed without recreating anything.
+func (c05) busyReconnect(sc core.Scenario, r *core.R) {
+	env := NewEnv(EnvOpt{})
+	defer env.Shutdown()
+	pol := &core.Policy{Seed: sc.Seed}
+	if us := sc.I("stallus"); us > 0 {
+		pol.Rules = append(pol.Rules, &core.Rule{Point: "ws.reconn.swap.before", Side: 1, Do: func(jsonrpc.VerifEvent) { time.Sleep(time.Duration(us) * time.Microsecond) }})
+	}
+	defer pol.Install()()
+	cl, err := env.NewClient(ClientOpt{Opts: []jsonrpc.Option{jsonrpc.WithReconnectBackoff(5*time.Millisecond, 10*time.Millisecond)}})
+	if err != nil {
+		r.Inconclusive("client: %v", err)
+		return
+	}
+	ctx := context.Background()
+	var mu sync.Mutex
+	var outs []*Outcome
+	stop := make(chan struct{})
+	var wg sync.WaitGroup
+	for w := 0; w < sc.I("workers"); w++ {
+		wg.Add(1)
+		go func() {
+			defer wg.Done()
+			for {
+				select {
+				case <-stop:
+					return
+				default:
+				}
+				t := Tok("x")
+				o := Go(t, func() (string, error) { return cl.Echo(ctx, t, "") })
+				mu.Lock()
+				outs = append(outs, o)
+				mu.Unlock()
+				o.Wait(200 * time.Millisecond)
+			}
+		}()
+	}
+	for i := 0; i < sc.I("rounds"); i++ {
+		time.Sleep(25 * time.Millisecond)
+		env.Px.KillAll([]string{wsproxy.RST, wsproxy.FIN}[i%2])
+	}
+	time.Sleep(60 * time.Millisecond)
+	close(stop)
+	wg.Wait()
+	if !probeUntilHealthy(cl, r, 2*core.Grace) {
+		r.Violate("no-recovery", "client did not heal after %d losses with callers active", sc.I("rounds"))
+		return
+	}
+	mu.Lock()
+	all := append([]*Outcome(nil), outs...)
+	mu.Unlock()
+	failed := 0
+	for _, o := range all {
+		if !o.Wait(core.Grace) {
+			r.Violate("untagged-hang", "call %s issued while the client was reconnecting is still blocked although the link has been healthy again for %v and newer calls succeed; events: %s", o.Tok, core.Grace, core.Log.Tail(30))
+			break
+		}
+		if o.Err != nil {
+			failed++
+		} else if o.Val != svc.Reply(o.Tok) {
+			r.Violate("foreign-result", "call %s returned %q", o.Tok, o.Val)
+		}
+	}
+	dials := core.Log.Count("ws.reconn.dial")
+	r.Key(fmt.Sprintf("busy-reconnect w=%d stall=%dus", sc.I("workers"), sc.I("stallus")), dials > 0)
+	r.Obs("redial_attempts_observed", int64(dials))
+	r.Obs("probes", int64(len(all)))
+	r.Sig(core.Log.Signature())
+	r.Sample(map[string]interface{}{"scenario": "callers active across several reconnects", "workers": sc.I("workers"), "losses": sc.I("rounds"), "swap_delay_us": sc.I("stallus"), "calls": len(all), "failed_by_losses": failed})
 }
 
 func (c05) noReconnect(sc core.Scenario, r *core.R) {
